@@ -113,3 +113,23 @@ From FQE Require Import Cirq.
 Definition m_export := export.
 Definition m_import := import.
 Definition m_jw_code := jw_code.
+
+(* C15: executable instance of the persistence machine: objects are version ids,
+   a file holds (id, None) or (id, Some k) when cut at byte k *)
+From FQE Require Import Persist.
+Definition pbytes := (nat * option nat)%type.
+Definition p_pickle (x : nat) : pbytes := (x, None).
+Definition p_unpickle (b : pbytes) : option nat := match snd b with None => Some (fst b) | Some _ => None end.
+Definition p_trunc (k : nat) (b : pbytes) : pbytes := (fst b, Some k).
+Definition pop := op nat.
+Definition m_persist (frozen : bool) (ndir nfile npool cwd0 imp0 : nat) (ops : list pop)
+  : list bool * list nat * list (nat * nat * option pbytes) :=
+  let s0 := mkst nat pbytes (fun _ _ => None) cwd0 imp0 (fun i => i) in
+  let fix go (s : st nat pbytes) (l : list pop) (acc : list bool) :=
+      match l with
+      | [] => (s, rev acc)
+      | o :: r => let '(s', ok) := step nat pbytes p_pickle p_unpickle p_trunc frozen s o in go s' r (ok :: acc)
+      end in
+  let '(sf, res) := go s0 ops [] in
+  (res, map (recv nat pbytes sf) (seq 0 npool),
+   flat_map (fun d => map (fun f => (d, f, fs nat pbytes sf d f)) (seq 0 nfile)) (seq 0 ndir)).
